@@ -17,7 +17,12 @@ let () =
     | "st" ->
       let chunks = List.map bytes_of_hex (List.filter (fun s -> s <> "") (split_on '|' f.(3))) in
       let show = function
-        | IFrame (fr, he, cl) -> Printf.sprintf "F:%d:%d:%s" (List.length fr) (int_of_nat he) (decimal_of_n cl)
+        | IFrame (fr, _, cl) ->
+          (* head end and body as the decoder's second pass computes them (Model/C02.v second_pass) *)
+          (match second_pass stream_body_len_saved fr cl with
+           | SpOk (he2, body) -> Printf.sprintf "F:%d:%d:%d" (List.length fr) (int_of_nat he2) (List.length body)
+           | SpMalformed -> "E:Malformed"
+           | SpPanic -> "PANIC second pass: body slice out of the frame")
         | IErr TooLarge -> "E:TooLarge" | IErr Malformed -> "E:Malformed" | IErr IoRemaining -> "E:IoRemaining"
         | IPanic -> "MODEL-PANIC" in
       String.concat " " (List.map show (run_framed (fun _ -> true) chunks))
